@@ -5,7 +5,8 @@ package state
 // Harness of property C36 (chain state survives a crash at any write).
 //
 // One case = a scripted scenario (block imports with state tries, finalisations, scheduled and forced
-// GRANDPA authority changes, latest-round updates) run on the REAL dot/state code over a real in-memory
+// GRANDPA authority changes, BABE next-epoch data/config announcements and their finalisation, justifications,
+// prevotes/precommits, latest-round updates) run on the REAL dot/state code over a real in-memory
 // Pebble database that is wrapped by a recorder.  Observables:
 //   (i)  the result of every operation and the ordered write log (key classes, batches bracketed);
 //   (ii) for EVERY prefix k of the write log: a fresh Pebble database is rebuilt from genesis + the first
@@ -17,6 +18,7 @@ import (
 	"encoding/binary"
 	"errors"
 	"fmt"
+	"sort"
 	"strconv"
 	"strings"
 	"sync"
@@ -40,6 +42,8 @@ const (
 	c36Keys    = 3 // storage keys that blocks modify
 	c36MaxOps  = 14
 	c36ValSize = 40
+	c36EpochLen = 2 // slots per epoch; the slot of a block is 1000 + its number
+	c36MaxEpoch = 6
 )
 
 // ---------------------------------------------------------------------------------------------
@@ -167,7 +171,7 @@ var (
 	c36Once    sync.Once
 	c36Keyring *keystore.Ed25519Keyring
 	c36BabeCfg = &types.BabeConfiguration{
-		SlotDuration: 1000, EpochLength: 200, C1: 1, C2: 4, SecondarySlots: 1,
+		SlotDuration: 1000, EpochLength: c36EpochLen, C1: 1, C2: 4, SecondarySlots: 1,
 	}
 )
 
@@ -251,6 +255,8 @@ type c36Node struct {
 	block   *BlockState
 	storage *InmemoryStorageState
 	grandpa *GrandpaState
+	epoch   *EpochState
+	nondet  bool // the write order of this scenario depends on Go's map iteration order
 	blks    map[int]*c36Blk
 	byHash  map[common.Hash]int
 	byRoot  map[common.Hash]string
@@ -283,7 +289,7 @@ func c36NewNode() (*c36Node, error) {
 	if err != nil {
 		return nil, err
 	}
-	if _, err = NewEpochStateFromGenesis(rec, n.block, c36BabeCfg); err != nil {
+	if n.epoch, err = NewEpochStateFromGenesis(rec, n.block, c36BabeCfg); err != nil {
 		return nil, err
 	}
 	n.grandpa, err = NewGrandpaStateFromGenesis(rec, n.block, c36Voters(0), tele)
@@ -309,12 +315,17 @@ func (n *c36Node) define(id, parent, k, v int) *c36Blk {
 	st := p.state
 	st[k] = v
 	root := trie.V0.MustHash(c36FreshTrie(st))
-	pre, err := types.NewBabePrimaryPreDigest(0, uint64(1000+id), [32]byte{}, [64]byte{}).ToPreRuntimeDigest()
+	// the slot is a function of the block number (so the epoch of a block is too); the seal carries the id so
+	// that sibling blocks with equal state have different hashes
+	pre, err := types.NewBabePrimaryPreDigest(0, uint64(1000+p.header.Number+1), [32]byte{}, [64]byte{}).ToPreRuntimeDigest()
 	if err != nil {
 		panic(err)
 	}
 	digest := types.NewDigest()
 	if err := digest.Add(*pre); err != nil {
+		panic(err)
+	}
+	if err := digest.Add(types.SealDigest{ConsensusEngineID: types.BabeEngineID, Data: []byte{0x5e, byte(id)}}); err != nil {
 		panic(err)
 	}
 	h := types.NewHeader(p.header.Hash(), root, trie.EmptyHash, p.header.Number+1, digest)
@@ -327,7 +338,7 @@ func (n *c36Node) define(id, parent, k, v int) *c36Blk {
 }
 
 // imp re-enacts dot/core Service.handleBlock: StoreTrie, AddBlock, digest handler, ApplyForcedChanges.
-func (n *c36Node) imp(b *c36Blk, k, v int, change []string) string {
+func (n *c36Node) imp(b *c36Blk, k, v int, change []string, ne, nc bool) string {
 	parentRoot := n.blks[b.parent].header.StateRoot
 	ts, err := n.storage.TrieState(&parentRoot)
 	if err != nil {
@@ -368,10 +379,46 @@ func (n *c36Node) imp(b *c36Blk, k, v int, change []string) string {
 			return "e-digest"
 		}
 	}
+	// BABE consensus digests (dot/digest BlockImportHandler → EpochState.HandleBABEDigest)
+	if ne {
+		d := types.NewBabeConsensusDigest()
+		if err := d.SetValue(types.NextEpochData{Authorities: []types.AuthorityRaw{{Key: [32]byte{1, byte(b.id)}, Weight: 1}},
+			Randomness: [32]byte{2, byte(b.id)}}); err != nil {
+			return "e-digest-build"
+		}
+		if err := n.epoch.HandleBABEDigest(b.header, d); err != nil {
+			return "e-babe"
+		}
+	}
+	if nc {
+		v := types.NewVersionedNextConfigData()
+		if err := v.SetValue(types.NextConfigDataV1{C1: 1, C2: uint64(4 + b.id), SecondarySlots: 1}); err != nil {
+			return "e-digest-build"
+		}
+		d := types.NewBabeConsensusDigest()
+		if err := d.SetValue(v); err != nil {
+			return "e-digest-build"
+		}
+		if err := n.epoch.HandleBABEDigest(b.header, d); err != nil {
+			return "e-babe"
+		}
+	}
 	if err := n.grandpa.ApplyForcedChanges(b.header); err != nil {
 		return "e-forced"
 	}
 	return "ok"
+}
+
+// pendingEpochs counts the epochs <= nextEpoch that have announcements in a next-epoch map: with two or more
+// of them the finalisation handler deletes them in Go map order.
+func c36Pending[T types.NextEpochData | types.NextConfigDataV1](m nextEpochMap[T], nextEpoch uint64) int {
+	c := 0
+	for e := range m {
+		if e <= nextEpoch {
+			c++
+		}
+	}
+	return c
 }
 
 // fin re-enacts a finalisation: SetFinalisedHash, then (as dot/digest does on the finalisation
@@ -387,12 +434,58 @@ func (n *c36Node) fin(id int, round, setID uint64) string {
 	if err := n.block.SetFinalisedHash(hash, round, setID); err != nil {
 		return "e-fin"
 	}
+	res := "ok"
 	if round > 0 && hdr != nil {
+		// dot/digest Handler.handleBlockFinalisation: errors are logged, the next step still runs
+		if hdr.Number != 0 {
+			if ep, err := n.epoch.GetEpochForBlock(hdr); err == nil {
+				if c36Pending(n.epoch.nextEpochData, ep+1) > 1 || c36Pending(n.epoch.nextConfigData, ep+1) > 1 {
+					n.nondet = true
+				}
+			}
+		}
+		if err := n.epoch.FinalizeBABENextEpochData(hdr); err != nil {
+			res += "+e-ned"
+		}
+		if err := n.epoch.FinalizeBABENextConfigData(hdr); err != nil {
+			res += "+e-ncd"
+		}
 		if err := n.grandpa.ApplyScheduledChanges(hdr); err != nil {
-			return "ok+e-sched"
+			res += "+e-sched"
 		}
 	}
-	return "ok"
+	return res
+}
+
+// gfin re-enacts lib/grandpa Service.finalise for an own round: justification, prevotes, precommits,
+// GetHeader, SetFinalisedHash (+ the finalisation handlers), SetLatestRound.
+func (n *c36Node) gfin(id int, round, setID uint64) string {
+	var hash common.Hash
+	if b, ok := n.blks[id]; ok {
+		hash = b.header.Hash()
+	} else {
+		hash = common.Hash{0xff, byte(id)}
+	}
+	if err := n.block.SetJustification(hash, []byte{0x1a, byte(id), byte(round)}); err != nil {
+		return "e-just"
+	}
+	if err := n.grandpa.SetPrevotes(round, setID, []types.GrandpaSignedVote{}); err != nil {
+		return "e-pv"
+	}
+	if err := n.grandpa.SetPrecommits(round, setID, []types.GrandpaSignedVote{}); err != nil {
+		return "e-pc"
+	}
+	if _, err := n.block.GetHeader(hash); err != nil {
+		return "e-hdr"
+	}
+	res := n.fin(id, round, setID)
+	if !strings.HasPrefix(res, "ok") {
+		return res
+	}
+	if err := n.grandpa.SetLatestRound(round); err != nil {
+		return res + "+e-lr"
+	}
+	return res
 }
 
 // ---------------------------------------------------------------------------------------------
@@ -406,6 +499,19 @@ func (n *c36Node) hashName(h []byte) string {
 		return strconv.Itoa(id)
 	}
 	return "?"
+}
+
+// "<epoch>:<0x hash>" → "<epoch>:<id>"
+func (n *c36Node) epochKeyName(part string) string {
+	f := strings.SplitN(part, ":", 2)
+	if len(f) != 2 {
+		return "?"
+	}
+	h, err := common.HexToBytes(f[1])
+	if err != nil {
+		return f[0] + ":?"
+	}
+	return f[0] + ":" + n.hashName(h)
 }
 
 func c36U64LE(b []byte) string {
@@ -449,6 +555,8 @@ func (n *c36Node) putName(w c36Write) string {
 		case bytes.HasPrefix(k, common.FinalizedBlockHashKey) && len(k) == len(common.FinalizedBlockHashKey)+16:
 			rs := k[len(common.FinalizedBlockHashKey):]
 			return "f" + c36U64LE(rs[:8]) + "." + c36U64LE(rs[8:]) + "=" + n.hashName(val)
+		case bytes.HasPrefix(k, justificationPrefix) && len(k) == 35:
+			return "j" + n.hashName(k[3:])
 		case bytes.Equal(k, highestRoundAndSetIDKey):
 			if len(val) != 16 {
 				return "hrs=?"
@@ -470,6 +578,24 @@ func (n *c36Node) putName(w c36Write) string {
 			return "ch" + c36U64LE(k[len(setIDChangePrefix):]) + "=" + strconv.FormatUint(uint64(common.BytesToUint(val)), 10)
 		case bytes.Equal(k, common.LatestFinalizedRoundKey):
 			return "lr=" + c36U64LE(val)
+		case bytes.HasPrefix(k, []byte("pv")) && len(k) == 18:
+			return "pv" + c36U64LE(k[2:10]) + "." + c36U64LE(k[10:])
+		case bytes.HasPrefix(k, []byte("pc")) && len(k) == 18:
+			return "pc" + c36U64LE(k[2:10]) + "." + c36U64LE(k[10:])
+		}
+	case bytes.HasPrefix(key, []byte(epochPrefix)):
+		k := key[len(epochPrefix):]
+		switch {
+		case bytes.Equal(k, currentEpochKey):
+			return "epoch"
+		case bytes.HasPrefix(k, nextEpochDataPrefix):
+			return "ned" + n.epochKeyName(string(k[len(nextEpochDataPrefix):]))
+		case bytes.HasPrefix(k, nextConfigDataPrefix):
+			return "ncd" + n.epochKeyName(string(k[len(nextConfigDataPrefix):]))
+		case bytes.HasPrefix(k, epochDataPrefix) && len(k) == len(epochDataPrefix)+8:
+			return "ei" + c36U64LE(k[len(epochDataPrefix):])
+		case bytes.HasPrefix(k, configDataPrefix) && len(k) == len(configDataPrefix)+8:
+			return "ci" + c36U64LE(k[len(configDataPrefix):])
 		}
 	case bytes.HasPrefix(key, []byte(storagePrefix)):
 		k := key[len(storagePrefix):]
@@ -479,9 +605,6 @@ func (n *c36Node) putName(w c36Write) string {
 			}
 		}
 		return "t"
-	}
-	if string(key) == "epochcurrent" {
-		return "epoch"
 	}
 	if string(key) == "skipto" {
 		return "skipto"
@@ -502,6 +625,9 @@ func (n *c36Node) entryName(e c36Entry) string {
 			continue
 		}
 		names = append(names, nm)
+	}
+	if len(names) > 0 && strings.HasPrefix(names[0], "del:") {
+		sort.Strings(names) // keys of a deletion batch come from an iterator in hash order
 	}
 	return "[" + strings.Join(names, ",") + "]"
 }
@@ -582,6 +708,35 @@ func (n *c36Node) restart(entries []c36Entry) string {
 	} else {
 		sb.WriteString(" body=wrong")
 	}
+	// justification of the head, prevotes / precommits of the head's round
+	has := func(ok bool, err error) string {
+		if err == nil && ok {
+			return "1"
+		}
+		return "0"
+	}
+	okJ, errJ := svc.Block.HasJustification(hdr.Hash())
+	_, errPv := svc.Grandpa.GetPrevotes(round, setID)
+	_, errPc := svc.Grandpa.GetPrecommits(round, setID)
+	fmt.Fprintf(&sb, " j=%s pv=%s pc=%s", has(okJ, errJ), has(true, errPv), has(true, errPc))
+	// what NewEpochState restored from disk, and the persisted epoch definitions
+	sb.WriteString(" ne=" + c36MapNames(n, svc.Epoch.nextEpochData) + " nc=" + c36MapNames(n, svc.Epoch.nextConfigData))
+	var ei, ci []string
+	for e := uint64(0); e <= c36MaxEpoch; e++ {
+		if ok, err := svc.Epoch.db.Has(epochDataKey(e)); err == nil && ok {
+			ei = append(ei, strconv.FormatUint(e, 10))
+		}
+		if ok, err := svc.Epoch.db.Has(configDataKey(e)); err == nil && ok {
+			ci = append(ci, strconv.FormatUint(e, 10))
+		}
+	}
+	dash := func(l []string) string {
+		if len(l) == 0 {
+			return "-"
+		}
+		return strings.Join(l, ",")
+	}
+	sb.WriteString(" ei=" + dash(ei) + " ci=" + dash(ci))
 	// what lib/grandpa NewService reads
 	if _, err := svc.Block.GetFinalisedHeader(0, 0); err != nil {
 		sb.WriteString(" f00=missing")
@@ -610,6 +765,32 @@ func (n *c36Node) restart(entries []c36Entry) string {
 		fmt.Fprintf(&sb, " lr=%d", r)
 	}
 	return sb.String()
+}
+
+func c36MapNames[T types.NextEpochData | types.NextConfigDataV1](n *c36Node, m nextEpochMap[T]) string {
+	type eh struct {
+		e  uint64
+		id int
+	}
+	var l []eh
+	for e, hashes := range m {
+		for h := range hashes {
+			id, ok := n.byHash[h]
+			if !ok {
+				id = 99
+			}
+			l = append(l, eh{e, id})
+		}
+	}
+	if len(l) == 0 {
+		return "-"
+	}
+	sort.Slice(l, func(i, j int) bool { return l[i].e < l[j].e || (l[i].e == l[j].e && l[i].id < l[j].id) })
+	parts := make([]string, len(l))
+	for i, x := range l {
+		parts[i] = fmt.Sprintf("%d:%d", x.e, x.id)
+	}
+	return strings.Join(parts, ",")
 }
 
 // ---------------------------------------------------------------------------------------------
